@@ -388,6 +388,8 @@ def install(sim: Sim, image_model: str = "fork", cpu_count: int = 4) -> None:
     multiprocessing.Pool = SimPool
     multiprocessing.pool.Pool = SimPool
     multiprocessing.pool.ThreadPool = SimThreadPool
+    saved["cf.ppe"], saved["cf.tpe"] = _cf.ProcessPoolExecutor, _cf.ThreadPoolExecutor
+    _cf.ProcessPoolExecutor, _cf.ThreadPoolExecutor = SimProcessExecutor, SimThreadExecutor
     os.cpu_count = lambda: cpu_count
     os.getpid = _sim_getpid
     saved["modattrs"] = []
@@ -397,6 +399,12 @@ def install(sim: Sim, image_model: str = "fork", cpu_count: int = 4) -> None:
             if v is saved["pool.ThreadPool"]:
                 saved["modattrs"].append((mod, k, v))
                 setattr(mod, k, SimThreadPool)
+            elif v is saved["cf.ppe"]:
+                saved["modattrs"].append((mod, k, v))
+                setattr(mod, k, SimProcessExecutor)
+            elif v is saved["cf.tpe"]:
+                saved["modattrs"].append((mod, k, v))
+                setattr(mod, k, SimThreadExecutor)
             elif any(v is f for f in real_pool_fns) or (callable(v) and getattr(v, "__func__", None) is
                                                         getattr(saved["mp.Pool"], "__func__", object())):
                 saved["modattrs"].append((mod, k, v))
@@ -410,6 +418,7 @@ def uninstall() -> None:
     multiprocessing.Pool = saved["mp.Pool"]
     multiprocessing.pool.Pool = saved["pool.Pool"]
     multiprocessing.pool.ThreadPool = saved["pool.ThreadPool"]
+    _cf.ProcessPoolExecutor, _cf.ThreadPoolExecutor = saved["cf.ppe"], saved["cf.tpe"]
     os.cpu_count = saved["cpu_count"]
     os.getpid = saved["getpid"]
     multiprocessing.current_process().name = saved["proc_name"]
@@ -447,4 +456,92 @@ class real_pool:
         self.esc.__exit__(*a)
         if self.was:
             install(*self.args)
+        return False
+
+
+# ------------------------------------------------------- concurrent.futures stand-ins
+import concurrent.futures as _cf  # noqa: E402
+
+
+class _LazyFuture(_cf.Future):
+    """A future whose task runs when somebody waits for it (or at shutdown)."""
+
+    def __init__(self, owner: "SimThreadExecutor") -> None:
+        super().__init__()
+        self._owner = owner
+
+    def result(self, timeout=None):
+        self._owner._drain(self)
+        return super().result(0)
+
+    def exception(self, timeout=None):
+        self._owner._drain(self)
+        return super().exception(0)
+
+
+class SimProcessExecutor:
+    """concurrent.futures.ProcessPoolExecutor over SimPool (one pickled task per submit)."""
+
+    def __init__(self, max_workers=None, mp_context=None, initializer=None, initargs=(), **kw):
+        self._pool = SimPool(max_workers, initializer, initargs)
+
+    def submit(self, fn, /, *args, **kwargs):
+        f: _cf.Future = _cf.Future()
+        try:
+            f.set_result(self._pool._run_chunks(_apply_star, [(fn, args, kwargs)], mapstar, 1)[0])
+        except Exception as e:
+            f.set_exception(e)
+        return f
+
+    def map(self, fn, *iterables, timeout=None, chunksize=1):
+        return iter(self._pool._run_chunks(fn, list(zip(*iterables)), starmapstar, chunksize))
+
+    def shutdown(self, wait=True, *, cancel_futures=False):
+        self._pool.terminate()
+
+    def __enter__(self):
+        return self
+
+    def __exit__(self, *a):
+        self.shutdown()
+        return False
+
+
+class SimThreadExecutor:
+    """concurrent.futures.ThreadPoolExecutor: tasks share memory and run one at a time in a scheduler-chosen order."""
+
+    def __init__(self, max_workers=None, thread_name_prefix="", initializer=None, initargs=()):
+        self.sim: Sim = _STATE["sim"]
+        self._pending: list[tuple[_LazyFuture, Callable, tuple, dict]] = []
+        if initializer is not None:
+            initializer(*initargs)
+
+    def submit(self, fn, /, *args, **kwargs):
+        f = _LazyFuture(self)
+        self._pending.append((f, fn, args, kwargs))
+        return f
+
+    def _drain(self, until: _cf.Future | None) -> None:
+        while self._pending and (until is None or not until.done()):
+            i = self.sim.choose(len(self._pending), "thread-task-order")
+            f, fn, args, kwargs = self._pending.pop(i)
+            self.sim.event("threadexecutor", "run", i)
+            try:
+                f.set_result(fn(*args, **kwargs))
+            except Exception as e:
+                f.set_exception(e)
+
+    def map(self, fn, *iterables, timeout=None, chunksize=1):
+        futures = [self.submit(fn, *a) for a in zip(*iterables)]
+        self._drain(None)
+        return iter([f.result() for f in futures])
+
+    def shutdown(self, wait=True, *, cancel_futures=False):
+        self._drain(None)
+
+    def __enter__(self):
+        return self
+
+    def __exit__(self, *a):
+        self.shutdown()
         return False
